@@ -495,6 +495,22 @@ impl Sim {
         self.collect_outbox();
     }
 
+    /// Deliver `bytes` from `from` to inline node `n` right now and return what it emitted during
+    /// that tick (not routed into the network).
+    pub fn exchange(&mut self, n: usize, from: SocketAddrV4, bytes: &[u8]) -> Vec<v::Datagram> {
+        let ep = self.nodes[n].ep;
+        self.steps += 1;
+        if let Kind::Inline(a) = &mut self.nodes[n].kind {
+            v::sim_set_input(ep, Grant::Datagram(bytes.to_vec(), from));
+            let r = std::panic::catch_unwind(std::panic::AssertUnwindSafe(|| a.tick()));
+            if r.is_err() {
+                self.nodes[n].panicked = true;
+                self.nodes[n].alive = false;
+            }
+        }
+        v::sim_take_outbox()
+    }
+
     /// Give node `n` one input-less tick right now (e.g. after issuing an API call).
     pub fn poke(&mut self, n: usize) {
         self.tick_node(n, None);
